@@ -544,7 +544,7 @@ class Executor:
         raise PathEnd("write through %r" % (ref,))
 
     # ---- operands / rvalues ------------------------------------------------------
-    def const_value(self, text, ty, want_ty):
+    def const_value(self, text, ty, want_ty, cur=None):
         t = ty or want_ty
         if ty == "bool" or text in ("true", "false"):
             return VBool(z3.BoolVal(text == "true"))
@@ -572,15 +572,22 @@ class Executor:
             if len(body) == 1:
                 return VInt(z3.BitVecVal(ord(body), 32), 32, False)
         if "::promoted[" in text:
-            v = self.promoted(text)
+            v = self.promoted(text, cur)
             if v is not None:
                 return v
         return VOpaque(t or "?", "const:" + text)
 
-    def promoted(self, text):
+    def promoted(self, text, cur=None):
         """Value of a promoted constant (its MIR body is executed)."""
         name = re.sub(r"::<[^>]*>", "", text.strip())
         fn = self.funcs.get("const " + name)
+        if fn is None and cur is not None:
+            # a promoted constant belongs to the function that uses it (impl methods are spelled differently at the use site)
+            m = re.search(r"::(promoted\[\d+\])$", name)
+            if m:
+                fn = self.funcs.get("const " + cur.name + "::" + m.group(1))
+                if fn is not None:
+                    name = cur.name + "::" + m.group(1)
         segs = name.split("::")
         while fn is None and len(segs) > 2:
             # the use site spells the full module path, the definition only the path inside its module
@@ -614,7 +621,7 @@ class Executor:
         if op[0] in ("copy", "move"):
             return self.read_place(st, frame, op[1], f)
         if op[0] == "const":
-            return self.const_value(op[1], op[2], want_ty)
+            return self.const_value(op[1], op[2], want_ty, cur=f)
         raise PathEnd("operand %r" % (op,))
 
     def binop(self, st, op, a, b, f, bb):
